@@ -9,256 +9,12 @@
   callbacks, Close, Stats, reports, in any interleaving of critical sections); `run v c {} ops` is the state after it.
   `Variant.signal` = the code with fixes/C31-swap-timeout-wakes-sender.diff, `Variant.silent` = the pinned code.
 -/
-import SH.Model.Egress
+import SH.Lemmas.Egress
 
 set_option linter.unusedSimpArgs false
 
 namespace SH.C31
 open SH.Egress
-
-/-- what the sender still owes upstream: the unread part of the read batch, then the write buffer -/
-def pendingOf (b : Buf) : List Pkt := b.r.drop b.ri ++ b.w
-
-def skippedCount (d : List (Pkt × Fate)) : Nat := (d.filter (fun d => d.2 == Fate.skipped)).length
-
-theorem map_written_fst (l : List Pkt) : (l.map (fun p => (p, Fate.written))).map (·.1) = l := by
-  induction l with
-  | nil => rfl
-  | cons a l ih => simp [ih]
-
-theorem map_skipped_fst (l : List Pkt) : (l.map (fun p => (p, Fate.skipped))).map (·.1) = l := by
-  induction l with
-  | nil => rfl
-  | cons a l ih => simp [ih]
-
-theorem skipped_written (l : List Pkt) : skippedCount (l.map (fun p => (p, Fate.written))) = 0 := by
-  induction l with
-  | nil => rfl
-  | cons a l ih => simp [skippedCount] at ih ⊢
-
-theorem skipped_skipped (l : List Pkt) : skippedCount (l.map (fun p => (p, Fate.skipped))) = l.length := by
-  induction l with
-  | nil => rfl
-  | cons a l ih => simp [skippedCount] at ih ⊢; exact ih
-
-theorem skipped_append (a b : List (Pkt × Fate)) : skippedCount (a ++ b) = skippedCount a + skippedCount b := by
-  simp [skippedCount]
-
-/-- a batch splits into: handed over completely, the one being written when the error happened, to be resent -/
-theorem split3 (l : List Pkt) (k : Nat) : l = l.take k ++ ((l.drop k).take 1 ++ l.drop (k + 1)) := by
-  have h1 : (l.drop k).take 1 ++ l.drop (k + 1) = l.drop k := by
-    have := List.take_append_drop 1 (l.drop k)
-    rw [List.drop_drop] at this
-    exact this
-  rw [h1, List.take_append_drop]
-/-- data invariant of one buffer (both variants): FIFO bookkeeping, capacity, error count -/
-structure Data (c : Cfg) (b : Buf) : Prop where
-  fifo : b.acc = b.done.map (·.1) ++ pendingOf b
-  wlen : b.w.length ≤ c.bufLen
-  nerr : skippedCount b.done = b.nerr
-
-/-- a sender waiting in `swap` has consumed its read batch -/
-def Exhausted (b : Buf) : Prop := parked b = true → b.r.length ≤ b.ri
-
-structure BInv (c : Cfg) (b : Buf) : Prop where
-  data : Data c b
-  exh : Exhausted b
-
-theorem binv_init (c : Cfg) : BInv c {} := by
-  refine ⟨⟨?_, ?_, ?_⟩, ?_⟩ <;> simp [pendingOf, parked, skippedCount, Exhausted]
-
-/-- `Data` only looks at these fields -/
-theorem data_congr (c : Cfg) (b b' : Buf) (h : Data c b) (hw : b'.w = b.w) (hr : b'.r = b.r) (hri : b'.ri = b.ri)
-    (ha : b'.acc = b.acc) (hd : b'.done = b.done) (hn : b'.nerr = b.nerr) : Data c b' := by
-  refine ⟨?_, ?_, ?_⟩
-  · simp only [pendingOf, hw, hr, hri, ha, hd]; exact h.fifo
-  · rw [hw]; exact h.wlen
-  · rw [hd, hn]; exact h.nerr
-
-theorem signal_fields (b : Buf) : (signal b).w = b.w ∧ (signal b).r = b.r ∧ (signal b).ri = b.ri ∧ (signal b).acc = b.acc ∧
-    (signal b).done = b.done ∧ (signal b).pc = b.pc ∧ (signal b).closed = b.closed ∧ (signal b).timeout = b.timeout ∧
-    (signal b).nerr = b.nerr := by
-  unfold signal; split <;> simp
-
-theorem binv_signal (c : Cfg) (b : Buf) (h : BInv c b) : BInv c (signal b) := by
-  obtain ⟨h1, h2, h3, h4, h5, h6, h7, h8, h9⟩ := signal_fields b
-  refine ⟨data_congr c b _ h.data h1 h2 h3 h4 h5 h9, ?_⟩
-  simp only [Exhausted, parked, h6, h2, h3]; exact h.exh
-
-theorem binv_bufPush (c : Cfg) (b : Buf) (p : Pkt) (h : BInv c b) : BInv c (bufPush c b p).1 := by
-  unfold bufPush
-  by_cases hf : full c b = true
-  · simp only [hf, if_true]; exact binv_signal c b h
-  · simp only [hf]
-    apply binv_signal
-    refine ⟨⟨?_, ?_, ?_⟩, ?_⟩
-    · simp only [pendingOf, h.data.fifo, List.append_assoc]
-    · simp only [full, decide_eq_true_eq, Nat.not_le] at hf; simp; omega
-    · exact h.data.nerr
-    · exact h.exh
-
-theorem data_swapBody (c : Cfg) (b : Buf) (h : Data c b) (hx : b.r.length ≤ b.ri) : Data c (swapBody b) := by
-  unfold swapBody
-  split
-  · exact h
-  · refine ⟨?_, ?_, ?_⟩
-    · have := h.fifo
-      simp only [pendingOf, List.drop_of_length_le hx, List.nil_append] at this
-      simp [pendingOf, this]
-    · simp
-    · exact h.nerr
-
-theorem binv_afterSwap1 (c : Cfg) (i : Bool) (b : Buf) (h : Data c b) : BInv c (afterSwap1 i b).1 := by
-  unfold afterSwap1
-  split
-  · exact ⟨data_congr c b _ h rfl rfl rfl rfl rfl rfl, by simp [Exhausted, parked]⟩
-  · exact ⟨data_congr c b _ h rfl rfl rfl rfl rfl rfl, by simp [Exhausted, parked]⟩
-
-theorem binv_afterSwap2 (c : Cfg) (i : Bool) (b : Buf) (h : Data c b) : BInv c (afterSwap2 i b).1 :=
-  ⟨data_congr c b _ h rfl rfl rfl rfl rfl rfl, by simp [Exhausted, parked, afterSwap2]⟩
-
-theorem binv_enterSwap1 (c : Cfg) (i : Bool) (b : Buf) (h : Data c b) (hx : b.r.length ≤ b.ri) : BInv c (enterSwap1 c i b).1 := by
-  unfold enterSwap1
-  split
-  · exact ⟨data_congr c b _ h rfl rfl rfl rfl rfl rfl, fun _ => hx⟩
-  · exact binv_afterSwap1 c i _ (data_swapBody c _ (data_congr c b _ h rfl rfl rfl rfl rfl rfl) hx)
-
-theorem binv_enterSwap2 (c : Cfg) (i : Bool) (b : Buf) (h : Data c b) (hx : b.r.length ≤ b.ri) : BInv c (enterSwap2 c i b).1 := by
-  unfold enterSwap2
-  split
-  · exact ⟨data_congr c b _ h rfl rfl rfl rfl rfl rfl, fun _ => hx⟩
-  · exact binv_afterSwap2 c i _ (data_swapBody c _ (data_congr c b _ h rfl rfl rfl rfl rfl rfl) hx)
-
-theorem binv_popStart (c : Cfg) (i : Bool) (b : Buf) (h : BInv c b) : BInv c (popStart c i b).1 := by
-  unfold popStart
-  split
-  · exact h
-  · split
-    · exact binv_enterSwap1 c i b h.data ‹_›
-    · exact binv_afterSwap1 c i b h.data
-
-theorem binv_wake (c : Cfg) (i : Bool) (b : Buf) (h : BInv c b) : BInv c (wake c i b).1 := by
-  unfold wake
-  split
-  · exact h
-  · split
-    · exact ⟨data_congr c b _ h.data rfl rfl rfl rfl rfl rfl, h.exh⟩
-    · split
-      · rename_i hpc
-        exact binv_afterSwap1 c i _ (data_swapBody c b h.data (h.exh (by simp [parked, hpc])))
-      · rename_i hpc
-        exact binv_afterSwap2 c i _ (data_swapBody c b h.data (h.exh (by simp [parked, hpc])))
-      · rename_i h1 h2
-        refine ⟨data_congr c b _ h.data rfl rfl rfl rfl rfl rfl, ?_⟩
-        intro hp
-        simp only [parked] at hp
-        cases hpc : b.pc <;> simp_all
-
-theorem binv_timerFire (c : Cfg) (v : Variant) (b : Buf) (h : BInv c b) : BInv c (timerFire v b) := by
-  unfold timerFire
-  split
-  · exact h
-  · cases v
-    · exact binv_signal c _ ⟨data_congr c b _ h.data rfl rfl rfl rfl rfl rfl, h.exh⟩
-    · exact ⟨data_congr c b _ h.data rfl rfl rfl rfl rfl rfl, h.exh⟩
-
-theorem binv_bufClose (c : Cfg) (b : Buf) (h : BInv c b) : BInv c (bufClose b) :=
-  binv_signal c _ ⟨data_congr c b _ h.data rfl rfl rfl rfl rfl rfl, h.exh⟩
-
-
-theorem batch_length (b : Buf) : (batch b).length = b.r.length - b.ri := by simp [batch]
-
-theorem binv_writeDone (c : Cfg) (i : Bool) (b : Buf) (res : WRes) (h : BInv c b) : BInv c (writeDone c i b res).1 := by
-  unfold writeDone
-  split
-  · exact h
-  · cases res with
-    | ok =>
-      simp only
-      apply binv_enterSwap2
-      · refine ⟨?_, h.data.wlen, ?_⟩
-        · have := h.data.fifo
-          simp only [pendingOf] at this
-          simp only [pendingOf, List.map_append, map_written_fst, batch, List.drop_length, List.nil_append,
-            List.append_assoc]
-          exact this
-        · simp only [skipped_append, skipped_written, Nat.add_zero]; exact h.data.nerr
-      · exact Nat.le_refl _
-    | err n =>
-      simp only
-      split
-      · exact h
-      · rename_i hn
-        have hlen := batch_length b
-        have hn' : n < b.r.length - b.ri := by omega
-        refine ⟨⟨?_, h.data.wlen, ?_⟩, by simp [Exhausted, parked]⟩
-        · have hf := h.data.fifo
-          simp only [pendingOf] at hf
-          have hd : b.r.drop (b.r.length - n) = (batch b).drop ((batch b).length - n - 1 + 1) := by
-            simp only [batch, List.drop_drop]
-            congr 1
-            simp only [List.length_drop]
-            omega
-          simp only [pendingOf, List.map_append, map_written_fst, map_skipped_fst, hd, List.append_assoc]
-          rw [hf]
-          congr 1
-          rw [← List.append_assoc, ← List.append_assoc, List.append_assoc (List.take _ _)]
-          congr 1
-          exact split3 (batch b) _
-        · simp only [skipped_append, skipped_written, skipped_skipped, Nat.add_zero, List.length_take, List.length_drop]
-          have := h.data.nerr
-          omega
-
-/-- both buffers satisfy the buffer invariant -/
-def PInv (c : Cfg) (s : Pool) : Prop := BInv c s.b0 ∧ BInv c s.b1
-
-theorem pinv_getB (c : Cfg) (s : Pool) (h : PInv c s) (i : Bool) : BInv c (getB s i) := by
-  cases i <;> simp [getB, h.1, h.2]
-
-theorem pinv_setB (c : Cfg) (s : Pool) (i : Bool) (b : Buf) (h : PInv c s) (hb : BInv c b) : PInv c (setB s i b) := by
-  cases i <;> simp [setB, PInv, h.1, h.2, hb]
-
-theorem pinv_push (c : Cfg) (s : Pool) (p : Pkt) (h : PInv c s) : PInv c (push c s p).1 := by
-  have hb0 := binv_bufPush c s.b0 p h.1
-  have hb1 := binv_bufPush c s.b1 p h.2
-  unfold push
-  simp only
-  split
-  · exact h
-  · split
-    · cases hp : s.prim <;> simp [PInv, setB, getB, hp, h.1, h.2, hb0, hb1]
-    · split
-      · cases hp : s.prim <;> simp [PInv, setB, getB, setRecon, hp, h.1, h.2, hb0, hb1]
-      · cases hp : s.prim <;> simp [PInv, setB, getB, hp, h.1, h.2, hb0, hb1]
-
-theorem pinv_step (v : Variant) (c : Cfg) (s : Pool) (op : Op) (h : PInv c s) : PInv c (step v c s op).1 := by
-  cases op with
-  | handle body =>
-    simp only [step, handle]
-    split
-    · exact h
-    · exact pinv_push c s _ h
-  | pop i => exact pinv_setB c s i _ h (binv_popStart c i _ (pinv_getB c s h i))
-  | wres i r => exact pinv_setB c s i _ h (binv_writeDone c i _ r (pinv_getB c s h i))
-  | timer i => exact pinv_setB c s i _ h (binv_timerFire c v _ (pinv_getB c s h i))
-  | wake i => exact pinv_setB c s i _ h (binv_wake c i _ (pinv_getB c s h i))
-  | close => exact ⟨binv_bufClose c _ h.1, binv_bufClose c _ h.2⟩
-  | stats => exact h
-  | report i ok =>
-    simp only [step]
-    split
-    · exact h
-    · split
-      · exact h
-      · split <;> exact h
-  | takeRecon i => cases i <;> exact h
-
-theorem pinv_run (v : Variant) (c : Cfg) (ops : List Op) : ∀ s, PInv c s → PInv c (run v c s ops) := by
-  induction ops with
-  | nil => intro s h; exact h
-  | cons op ops ih => intro s h; exact ih _ (pinv_step v c s op h)
-
-theorem pinv_init (c : Cfg) : PInv c {} := ⟨binv_init c, binv_init c⟩
 
 /-- packets handed over completely to a successful write, in the order the sender wrote them -/
 def writtenOf (b : Buf) : List Pkt := (b.done.filter (fun d => d.2 == Fate.written)).map (·.1)
@@ -279,210 +35,6 @@ theorem written_in_acceptance_order (v : Variant) (c : Cfg) (ops : List Op) (i :
   have h := (fifo_per_sender v c ops i).1
   rw [h]
   exact List.Sublist.trans (List.Sublist.map _ (List.filter_sublist)) (List.sublist_append_left _ _)
-
-/-- no lost wake-up: a sender parked in `swap` whose wait condition no longer holds has a wake-up pending -/
-def NoLost (c : Cfg) (b : Buf) : Prop := parked b = true → mustWait c b = false → b.sig = true
-
-theorem nolost_of_not_parked (c : Cfg) (b : Buf) (h : parked b = false) : NoLost c b := by
-  intro hp; rw [h] at hp; cases hp
-
-theorem nolost_signal (c : Cfg) (b : Buf) : NoLost c (signal b) := by
-  unfold signal
-  split
-  · intro _ _; rfl
-  · rename_i hp; exact nolost_of_not_parked c b (by simpa using hp)
-
-theorem nolost_bufPush (c : Cfg) (b : Buf) (p : Pkt) : NoLost c (bufPush c b p).1 := by
-  unfold bufPush; split <;> exact nolost_signal c _
-
-theorem nolost_afterSwap1 (c : Cfg) (i : Bool) (b : Buf) : NoLost c (afterSwap1 i b).1 := by
-  unfold afterSwap1; split <;> exact nolost_of_not_parked c _ (by simp [parked])
-
-theorem nolost_afterSwap2 (c : Cfg) (i : Bool) (b : Buf) : NoLost c (afterSwap2 i b).1 :=
-  nolost_of_not_parked c _ (by simp [parked, afterSwap2])
-
-theorem nolost_enterSwap1 (c : Cfg) (i : Bool) (b : Buf) : NoLost c (enterSwap1 c i b).1 := by
-  unfold enterSwap1
-  split
-  · rename_i hm
-    intro _ hf
-    simp [mustWait] at hm hf
-    have := hf hm.1
-    simp [hm.2] at this
-  · exact nolost_afterSwap1 c i _
-
-theorem nolost_enterSwap2 (c : Cfg) (i : Bool) (b : Buf) : NoLost c (enterSwap2 c i b).1 := by
-  unfold enterSwap2
-  split
-  · rename_i hm
-    intro _ hf
-    simp [mustWait] at hm hf
-    have := hf hm.1
-    simp [hm.2] at this
-  · exact nolost_afterSwap2 c i _
-
-theorem nolost_popStart (c : Cfg) (i : Bool) (b : Buf) (h : NoLost c b) : NoLost c (popStart c i b).1 := by
-  unfold popStart
-  split
-  · exact h
-  · split
-    · exact nolost_enterSwap1 c i b
-    · exact nolost_afterSwap1 c i b
-
-theorem nolost_writeDone (c : Cfg) (i : Bool) (b : Buf) (r : WRes) (h : NoLost c b) : NoLost c (writeDone c i b r).1 := by
-  unfold writeDone
-  split
-  · exact h
-  · cases r with
-    | ok => exact nolost_enterSwap2 c i _
-    | err n =>
-      simp only
-      split
-      · exact h
-      · exact nolost_of_not_parked c _ (by simp [parked])
-
-theorem nolost_wake (c : Cfg) (i : Bool) (b : Buf) (h : NoLost c b) : NoLost c (wake c i b).1 := by
-  unfold wake
-  split
-  · exact h
-  · split
-    · rename_i hm
-      intro _ hf
-      simp only [mustWait] at hm hf
-      simp [hm] at hf
-    · split
-      · exact nolost_afterSwap1 c i _
-      · exact nolost_afterSwap2 c i _
-      · rename_i h1 h2
-        apply nolost_of_not_parked
-        simp only [parked]
-        cases hpc : b.pc <;> simp_all
-
-theorem nolost_timerFire (c : Cfg) (b : Buf) (h : NoLost c b) : NoLost c (timerFire .signal b) := by
-  unfold timerFire
-  split
-  · exact h
-  · exact nolost_signal c _
-
-theorem nolost_bufClose (c : Cfg) (b : Buf) : NoLost c (bufClose b) := nolost_signal c _
-
-def PNoLost (c : Cfg) (s : Pool) : Prop := NoLost c s.b0 ∧ NoLost c s.b1
-
-theorem pnolost_getB (c : Cfg) (s : Pool) (h : PNoLost c s) (i : Bool) : NoLost c (getB s i) := by
-  cases i <;> simp [getB, h.1, h.2]
-
-theorem pnolost_setB (c : Cfg) (s : Pool) (i : Bool) (b : Buf) (h : PNoLost c s) (hb : NoLost c b) : PNoLost c (setB s i b) := by
-  cases i <;> simp [setB, PNoLost, h.1, h.2, hb]
-
-theorem pnolost_push (c : Cfg) (s : Pool) (p : Pkt) (h : PNoLost c s) : PNoLost c (push c s p).1 := by
-  have hb0 := nolost_bufPush c s.b0 p
-  have hb1 := nolost_bufPush c s.b1 p
-  unfold push
-  simp only
-  split
-  · exact h
-  · split
-    · cases hp : s.prim <;> simp [PNoLost, setB, getB, hp, h.1, h.2, hb0, hb1]
-    · split
-      · cases hp : s.prim <;> simp [PNoLost, setB, getB, setRecon, hp, h.1, h.2, hb0, hb1]
-      · cases hp : s.prim <;> simp [PNoLost, setB, getB, hp, h.1, h.2, hb0, hb1]
-
-theorem pnolost_step (c : Cfg) (s : Pool) (op : Op) (h : PNoLost c s) : PNoLost c (step .signal c s op).1 := by
-  cases op with
-  | handle body =>
-    simp only [step, handle]
-    split
-    · exact h
-    · exact pnolost_push c s _ h
-  | pop i => exact pnolost_setB c s i _ h (nolost_popStart c i _ (pnolost_getB c s h i))
-  | wres i r => exact pnolost_setB c s i _ h (nolost_writeDone c i _ r (pnolost_getB c s h i))
-  | timer i => exact pnolost_setB c s i _ h (nolost_timerFire c _ (pnolost_getB c s h i))
-  | wake i => exact pnolost_setB c s i _ h (nolost_wake c i _ (pnolost_getB c s h i))
-  | close => exact ⟨nolost_bufClose c _, nolost_bufClose c _⟩
-  | stats => exact h
-  | report i ok =>
-    simp only [step]
-    split
-    · exact h
-    · split
-      · exact h
-      · split <;> exact h
-  | takeRecon i => cases i <;> exact h
-
-theorem pnolost_run (c : Cfg) (ops : List Op) : ∀ s, PNoLost c s → PNoLost c (run .signal c s ops) := by
-  induction ops with
-  | nil => intro s h; exact h
-  | cons op ops ih => intro s h; exact ih _ (pnolost_step c s op h)
-
-theorem pnolost_init (c : Cfg) : PNoLost c {} :=
-  ⟨nolost_of_not_parked c _ (by simp [parked]), nolost_of_not_parked c _ (by simp [parked])⟩
-
-
-/-- the next move of sender `i` and of the batch timer armed by its `swap`, when nobody pushes: sendLoop calls `pop`
-    again, the write in progress completes, a pending wake-up is taken, an armed timer that has not fired yet fires.
-    `none`: the sender is parked, no wake-up is pending and the timer is spent — only another push could wake it. -/
-def senderNext (i : Bool) (b : Buf) : Option Op :=
-  match b.pc with
-  | .idle => some (.pop i)
-  | .writing => some (.wres i .ok)
-  | _ => if b.sig then some (.wake i) else if !b.timeout then some (.timer i) else none
-
-/-- effect of a sender-side op on the sender's own buffer -/
-def bstep (v : Variant) (c : Cfg) (i : Bool) (b : Buf) : Op → Buf
-  | .pop _ => (popStart c i b).1
-  | .wres _ r => (writeDone c i b r).1
-  | .wake _ => (wake c i b).1
-  | .timer _ => timerFire v b
-  | _ => b
-
-def isTimer : Op → Bool
-  | .timer _ => true
-  | _ => false
-
-/-- run the forced moves until nothing is pending (or fuel runs out, or the sender is stuck); count the timer periods -/
-def drive (v : Variant) (c : Cfg) (i : Bool) : Nat → Buf → Buf × Nat
-  | 0, b => (b, 0)
-  | n + 1, b =>
-    if (pendingOf b).isEmpty then (b, 0)
-    else match senderNext i b with
-      | none => (b, 0)
-      | some op => ((drive v c i n (bstep v c i b op)).1, (drive v c i n (bstep v c i b op)).2 + (if isTimer op then 1 else 0))
-
-
-/-- what "flushed within one timer period" means for a run of the forced moves from `b` -/
-def Flushed (b : Buf) (r : Buf × Nat) : Prop :=
-  pendingOf r.1 = [] ∧ r.2 ≤ 1 ∧ r.1.done = b.done ++ (pendingOf b).map (·, Fate.written) ∧ r.1.acc = b.acc
-
-theorem flush_writing (c : Cfg) (i : Bool) (b : Buf) (hpc : b.pc = .writing) (hcl : b.closed = false) :
-    Flushed b (drive .signal c i 6 b) := by
-  obtain ⟨w, r, ri, closed, pc, timeout, sig, acc, done, nerr⟩ := b
-  simp only at hpc hcl
-  subst hpc hcl
-  by_cases ht : 0 < thr c <;> by_cases hr : r.length ≤ ri <;> by_cases hw : w = [] <;> by_cases hwl : w.length < thr c <;>
-    simp [Flushed, drive, pendingOf, senderNext, bstep, popStart, enterSwap1, enterSwap2, afterSwap1, afterSwap2, wake, writeDone,
-      timerFire, signal, parked, mustWait, swapBody, batch, isTimer, ht, hr, hw, hwl]
-
-theorem flush_idle (c : Cfg) (i : Bool) (b : Buf) (hpc : b.pc = .idle) (hcl : b.closed = false) :
-    Flushed b (drive .signal c i 6 b) := by
-  obtain ⟨w, r, ri, closed, pc, timeout, sig, acc, done, nerr⟩ := b
-  simp only at hpc hcl
-  subst hpc hcl
-  by_cases ht : 0 < thr c <;> by_cases hr : r.length ≤ ri <;> by_cases hw : w = [] <;> by_cases hwl : w.length < thr c <;>
-    simp [Flushed, drive, pendingOf, senderNext, bstep, popStart, enterSwap1, enterSwap2, afterSwap1, afterSwap2, wake, writeDone,
-      timerFire, signal, parked, mustWait, swapBody, batch, isTimer, ht, hr, hw, hwl]
-
-theorem flush_parked (c : Cfg) (i : Bool) (b : Buf) (hpc : parked b = true) (hcl : b.closed = false)
-    (hex : Exhausted b) (hnl : NoLost c b) :
-    Flushed b (drive .signal c i 6 b) := by
-  obtain ⟨w, r, ri, closed, pc, timeout, sig, acc, done, nerr⟩ := b
-  have hr := hex hpc
-  simp only at hcl hr
-  subst hcl
-  simp only [NoLost, mustWait] at hnl
-  by_cases ht : 0 < thr c <;> by_cases hw : w = [] <;> by_cases hwl : w.length < thr c <;>
-    cases pc <;> cases sig <;> cases timeout <;>
-    simp [Flushed, drive, pendingOf, senderNext, bstep, popStart, enterSwap1, enterSwap2, afterSwap1, afterSwap2, wake, writeDone,
-      timerFire, signal, parked, mustWait, swapBody, batch, isTimer, ht, hr, hw, hwl] at hpc hnl ⊢
 
 /-- **C31, bounded delay even if no further packets arrive (buffer level).** From any state of a sender's buffer that
     satisfies the invariants (every reachable state does, see `prompt_even_if_idle_partial`), if nobody pushes any more, the forced
@@ -514,12 +66,6 @@ theorem never_stuck (c : Cfg) (ops : List Op) (i : Bool) :
   obtain ⟨w, r, ri, closed, pc, timeout, sig, acc, done, nerr⟩ := b
   simp only [NoLost, mustWait] at hnl
   cases pc <;> cases sig <;> cases timeout <;> simp [senderNext, parked] at hnl ⊢
-
-theorem getB_setB_same (s : Pool) (i : Bool) (b : Buf) : getB (setB s i b) i = b := by
-  cases i <;> simp [getB, setB]
-
-theorem getB_setB_other (s : Pool) (i : Bool) (b : Buf) : getB (setB s i b) (!i) = getB s (!i) := by
-  cases i <;> simp [getB, setB]
 
 /-- the forced moves used by `drive` are steps of the pool model that touch only the sender's own buffer -/
 theorem senderNext_is_step (v : Variant) (c : Cfg) (s : Pool) (i : Bool) (op : Op) (h : senderNext i (getB s i) = some op) :
@@ -565,16 +111,6 @@ example :
 
 /-! ### drops: only when both buffers are full, every one counted and accounted for -/
 
-theorem bufPush_ok (c : Cfg) (b : Buf) (p : Pkt) : (bufPush c b p).2 = !(full c b) := by
-  unfold bufPush; split <;> simp_all
-
-theorem bufPush_acc (c : Cfg) (b : Buf) (p : Pkt) :
-    (bufPush c b p).1.acc = if full c b then b.acc else b.acc ++ [p] := by
-  unfold bufPush
-  split
-  · exact (signal_fields b).2.2.2.1
-  · exact (signal_fields _).2.2.2.1
-
 /-- **C31, "a packet is dropped only when both send buffers are full, and every drop is counted".** For an open pool, one
     `WritePacketLocked` either refuses the packet — exactly when both write buffers hold `bufferLen` packets; then
     `droppedPackets` and `wouldBlockBytes` (+ len) record it and nothing else changes in the accepted logs — or appends it
@@ -590,74 +126,6 @@ theorem drop_iff_both_full (c : Cfg) (s : Pool) (p : Pkt) (hc : s.closed = false
   simp only [hc, bufPush_ok]
   cases hp : s.prim <;> cases h0 : full c s.b0 <;> cases h1 : full c s.b1 <;>
     simp [getB, setB, setRecon, bufPush_acc, bufPush_ok, hp, h0, h1]
-
-/-- bookkeeping that holds after every history -/
-structure Acct (s : Pool) : Prop where
-  pushes : s.nPush = s.fwdTotal + s.dropTotal
-  accepted : s.fwdTotal = s.b0.acc.length + s.b1.acc.length
-  bytes : s.dropBytes = s.wb + s.reported + s.lostRep
-
-theorem acc_popStart (c : Cfg) (i : Bool) (b : Buf) : (popStart c i b).1.acc = b.acc := by
-  simp only [popStart, enterSwap1, afterSwap1, swapBody]
-  repeat' split
-  all_goals simp
-
-theorem acc_wake (c : Cfg) (i : Bool) (b : Buf) : (wake c i b).1.acc = b.acc := by
-  simp only [wake, afterSwap1, afterSwap2, swapBody]
-  repeat' split
-  all_goals simp
-
-theorem acc_writeDone (c : Cfg) (i : Bool) (b : Buf) (r : WRes) : (writeDone c i b r).1.acc = b.acc := by
-  cases r <;> simp only [writeDone, enterSwap2, afterSwap2, swapBody]
-  all_goals repeat' split
-  all_goals simp
-
-theorem acc_timerFire (v : Variant) (b : Buf) : (timerFire v b).acc = b.acc := by
-  cases v <;> simp only [timerFire, signal]
-  all_goals repeat' split
-  all_goals simp
-
-theorem acc_bufClose (b : Buf) : (bufClose b).acc = b.acc := (signal_fields _).2.2.2.1
-
-theorem acct_push (c : Cfg) (s : Pool) (p : Pkt) (h : Acct s) : Acct (push c s p).1 := by
-  obtain ⟨h1, h2, h3⟩ := h
-  unfold push
-  simp only [bufPush_ok]
-  cases hcl : s.closed
-  · cases hp : s.prim <;> cases h0 : full c s.b0 <;> cases h1' : full c s.b1 <;>
-      refine ⟨?_, ?_, ?_⟩ <;> simp [getB, setB, setRecon, bufPush_acc, hp, h0, h1'] <;> omega
-  · refine ⟨?_, ?_, ?_⟩ <;> simp <;> omega
-
-theorem acct_setB (s : Pool) (i : Bool) (b : Buf) (h : Acct s) (hb : b.acc = (getB s i).acc) : Acct (setB s i b) := by
-  obtain ⟨h1, h2, h3⟩ := h
-  cases i <;> simp only [getB] at hb <;> refine ⟨?_, ?_, ?_⟩ <;> simp [setB, hb] <;> omega
-
-theorem acct_step (v : Variant) (c : Cfg) (s : Pool) (op : Op) (h : Acct s) : Acct (step v c s op).1 := by
-  cases op with
-  | handle body =>
-    simp only [step, handle]
-    split
-    · exact h
-    · exact acct_push c s _ h
-  | pop i => exact acct_setB s i _ h (acc_popStart c i _)
-  | wres i r => exact acct_setB s i _ h (acc_writeDone c i _ r)
-  | timer i => exact acct_setB s i _ h (acc_timerFire v _)
-  | wake i => exact acct_setB s i _ h (acc_wake c i _)
-  | close =>
-    obtain ⟨h1, h2, h3⟩ := h
-    exact ⟨h1, by simp only [step, acc_bufClose]; exact h2, h3⟩
-  | stats => exact ⟨h.1, h.2, h.3⟩
-  | report i ok =>
-    obtain ⟨h1, h2, h3⟩ := h
-    simp only [step]
-    split
-    · exact ⟨h1, h2, h3⟩
-    · split
-      · exact ⟨h1, h2, h3⟩
-      · split
-        · exact ⟨h1, h2, by simp; omega⟩
-        · exact ⟨h1, h2, by simp; omega⟩
-  | takeRecon i => cases i <;> exact ⟨h.1, h.2, h.3⟩
 
 /-- **C31, "every drop is counted and reported upstream".** After any history: every non-empty packet handed to the
     balancer was either accepted by exactly one sender or counted as dropped; and the bytes of all packets refused because
@@ -730,57 +198,6 @@ theorem frames_parse_back (bodies : List (List UInt8)) (h : ∀ b ∈ bodies, b.
     simp only [List.map_cons, List.flatten_cons, frame, le32, List.cons_append, List.nil_append, List.length_cons, deframe,
       le32dec_le32 b.length hb]
     simp [List.take_left', List.drop_left', ih']
-
-/-- a framed non-empty body, as built by `HandleMetricsBatchRaw` -/
-def IsFrame (p : Pkt) : Prop := ∃ body : List UInt8, body ≠ [] ∧ p = frame body
-
-def AllFrames (s : Pool) : Prop := (∀ p ∈ s.b0.acc, IsFrame p) ∧ (∀ p ∈ s.b1.acc, IsFrame p)
-
-theorem allframes_setB (s : Pool) (i : Bool) (b : Buf) (h : AllFrames s) (hb : b.acc = (getB s i).acc) : AllFrames (setB s i b) := by
-  obtain ⟨h0, h1⟩ := h
-  cases i
-  · simp only [getB, Bool.false_eq_true, if_false] at hb
-    exact ⟨by simp only [setB, Bool.false_eq_true, if_false, hb]; exact h0, by simp only [setB, Bool.false_eq_true, if_false]; exact h1⟩
-  · simp only [getB, if_true] at hb
-    exact ⟨by simp only [setB, if_true]; exact h0, by simp only [setB, if_true, hb]; exact h1⟩
-
-theorem allframes_push (c : Cfg) (s : Pool) (p : Pkt) (hp : IsFrame p) (h : AllFrames s) : AllFrames (push c s p).1 := by
-  obtain ⟨h0, h1⟩ := h
-  have k0 : ∀ q ∈ s.b0.acc ++ [p], IsFrame q := by
-    intro q hq; rcases List.mem_append.mp hq with hq | hq
-    · exact h0 q hq
-    · simp at hq; subst hq; exact hp
-  have k1 : ∀ q ∈ s.b1.acc ++ [p], IsFrame q := by
-    intro q hq; rcases List.mem_append.mp hq with hq | hq
-    · exact h1 q hq
-    · simp at hq; subst hq; exact hp
-  unfold push
-  simp only [bufPush_ok]
-  cases hcl : s.closed
-  · cases hpr : s.prim <;> cases f0 : full c s.b0 <;> cases f1 : full c s.b1 <;>
-      simp only [AllFrames, getB, setB, setRecon, bufPush_acc, hpr, f0, f1, Bool.not_true, Bool.not_false, if_true, if_false,
-        Bool.false_eq_true] <;> first | exact ⟨h0, h1⟩ | exact ⟨k0, h1⟩ | exact ⟨h0, k1⟩
-  · exact ⟨h0, h1⟩
-
-theorem allframes_step (v : Variant) (c : Cfg) (s : Pool) (op : Op) (h : AllFrames s) : AllFrames (step v c s op).1 := by
-  cases op with
-  | handle body =>
-    simp only [step, handle]
-    split
-    · exact h
-    · rename_i hne
-      exact allframes_push c s _ ⟨body, by intro hb; simp [hb] at hne, rfl⟩ h
-  | pop i => exact allframes_setB s i _ h (acc_popStart c i _)
-  | wres i r => exact allframes_setB s i _ h (acc_writeDone c i _ r)
-  | timer i => exact allframes_setB s i _ h (acc_timerFire v _)
-  | wake i => exact allframes_setB s i _ h (acc_wake c i _)
-  | close => simp only [step, AllFrames, acc_bufClose]; exact h
-  | stats => exact h
-  | report i ok =>
-    simp only [step]
-    repeat' split
-    all_goals exact h
-  | takeRecon i => cases i <;> exact h
 
 /-- everything a sender ever accepts (hence everything it writes upstream, by `fifo_per_sender`) is the 4-byte
     little-endian length of a non-empty packet handed to `HandleMetricsBatchRaw`, followed by that packet unchanged -/
@@ -860,17 +277,154 @@ example :
     let b := (run .signal c10 {} [.handle [1], .handle [2], .handle [3], .pop false]).b0
     b.pc = .writing ∧ 0 < (batch b).length ∧ callbackRet (batch b).length 0 = 2 := by decide
 
+/-! ### second round: pool-level order across failover, eventual drop report, write deadline -/
+
+/-- **C31 at pool level: acceptance order across failover.** `accAll` is the order in which `WritePacketLocked` accepted
+    packets, each tagged with the sender that took it. After any history (any number of failovers and pointer swaps):
+    every accepted packet was taken by exactly one sender (the tags partition the log: its length is the sum of the two
+    senders' logs, and each sender's log is exactly the sub-log carrying its tag, in the same order); hence what each
+    sender has written upstream (`writtenOf`, one connection at a time) is a subsequence of the pool's acceptance order. -/
+theorem pool_fifo_across_failover (v : Variant) (c : Cfg) (ops : List Op) :
+    let s := run v c {} ops
+    projTo s.accAll false = s.b0.acc ∧ projTo s.accAll true = s.b1.acc ∧
+    s.accAll.length = s.b0.acc.length + s.b1.acc.length ∧
+    (∀ i, List.Sublist (writtenOf (getB s i)) (projTo s.accAll i)) ∧
+    (∀ i, List.Sublist (writtenOf (getB s i)) (s.accAll.map (·.1))) := by
+  have h := proj_run v c ops {} ⟨rfl, rfl⟩
+  have hl := projTo_lengths (run v c {} ops).accAll
+  have hw : ∀ i, List.Sublist (writtenOf (getB (run v c {} ops) i)) (projTo (run v c {} ops).accAll i) := by
+    intro i
+    have := written_in_acceptance_order v c ops i
+    cases i
+    · simpa [getB, h.1] using this
+    · simpa [getB, h.2] using this
+  refine ⟨h.1, h.2, ?_, hw, fun i => (hw i).trans (projTo_sublist _ i)⟩
+  rw [hl, h.1, h.2]
+
+/-- **failover.** A packet goes to the sender `*secPtr` only when the buffer of `*primPtr` is full; then the old primary
+    gets a reconnect request (its upstream is the slow one), the pointers swap, and the packet is logged once, for the new
+    primary — the old primary's acceptance log is untouched. -/
+theorem failover_spec (c : Cfg) (s : Pool) (p : Pkt) (hc : s.closed = false)
+    (h : (push c s p).2 = [.accepted (!s.prim)]) :
+    full c (getB s s.prim) = true ∧ full c (getB s (!s.prim)) = false ∧
+    getRecon (push c s p).1 s.prim = true ∧ (push c s p).1.prim = !s.prim ∧
+    (push c s p).1.accAll = s.accAll ++ [(p, !s.prim)] ∧
+    (getB (push c s p).1 s.prim).acc = (getB s s.prim).acc := by
+  revert h
+  unfold push
+  simp only [hc, bufPush_ok]
+  cases hp : s.prim <;> cases h0 : full c s.b0 <;> cases h1 : full c s.b1 <;>
+    simp [getB, setB, setRecon, getRecon, bufPush_acc, bufPush_ok, hp, h0, h1]
+
+/-- non-vacuity: bufferLen 2, four packets without any pop — two go to the primary, the third fails over -/
+example :
+    let s := run .signal c2 {} [.handle [1], .handle [2]]
+    s.closed = false ∧ (push c2 s (frame [3])).2 = [.accepted (!s.prim)] ∧
+    (run .signal c2 {} [.handle [1], .handle [2], .handle [3], .handle [4]]).accAll =
+      [(frame [1], false), (frame [2], false), (frame [3], true), (frame [4], true)] := by decide
+
+
+/-- **C31, "every drop is … reported upstream" — the eventual part (state level).** From any state satisfying the
+    invariants in which the primary sender's buffer is open: if the primary sender has a live connection and is scheduled
+    (its forced moves happen: `pop` is called, the write in progress completes, a pending wake-up is taken, an armed batch
+    timer fires), then after at most 8 such moves — among them at most 2 batch-timer expiries — its `pop` returns nil and
+    `reportWouldBlockIfAny` runs: every byte pending in `wouldBlockBytes` moves to `reported` exactly once (`wb` becomes 0,
+    `reported` grows by exactly the old `wb`, nothing is added to `lostRep`, `writeErrors`, `dropBytes`). -/
+theorem drops_reported_within_one_loop_iteration (c : Cfg) (s : Pool) (hinv : PInv c s) (hnl : PNoLost c s)
+    (hcl : s.b0.closed = false) :
+    RetOk (untilRet c false 8 s.b0) ∧ Reported s (loopUntilReport c 8 s) := by
+  have h := ret_within c false s.b0 hinv.1 hnl.1 hcl
+  exact ⟨h, loop_link c 8 s (retOk_isSome _ h)⟩
+
+/-- **C31, "every drop is counted and reported upstream", full form** (fixed code): after ANY history the books balance
+    (`drops_counted_and_reported_partial`: pushes = forwarded + dropped; dropped bytes = pending + reported + lost with a
+    failed report write), and from that state one scheduled loop iteration of the primary sender on a live connection
+    (≤ 8 forced moves, ≤ 2 timer expiries) reports everything that is pending, exactly once — so afterwards
+    dropped bytes = reported + (bytes of reports whose write had failed earlier). -/
+theorem drops_counted_and_reported (c : Cfg) (ops : List Op) (hcl : (run .signal c {} ops).b0.closed = false) :
+    Acct (run .signal c {} ops) ∧ RetOk (untilRet c false 8 (run .signal c {} ops).b0) ∧
+    Reported (run .signal c {} ops) (loopUntilReport c 8 (run .signal c {} ops)) ∧
+    (∀ s', loopUntilReport c 8 (run .signal c {} ops) = some s' → s'.dropBytes = s'.reported + s'.lostRep) := by
+  have ha := drops_counted_and_reported_partial .signal c ops
+  have h := drops_reported_within_one_loop_iteration c _ (pinv_run .signal c ops {} (pinv_init c))
+    (pnolost_run c ops {} (pnolost_init c)) hcl
+  refine ⟨ha, h.1, h.2, ?_⟩
+  intro s' hs
+  have h2 := h.2
+  rw [hs] at h2
+  simp only [Reported] at h2
+  have := ha.bytes
+  omega
+
+/-- non-vacuity: both buffers full, one packet dropped (5 bytes pending), the primary sender sits in its loop: its next
+    iteration writes its batch and reports the 5 bytes -/
+example :
+    let s := run .signal c2 {} [.handle [1], .handle [2], .handle [3], .handle [4], .handle [5]]
+    s.b0.closed = false ∧ s.wb = 5 ∧ s.reported = 0 ∧
+    (loopUntilReport c2 8 s).map (fun s' => (s'.wb, s'.reported, s'.b0.done.length)) = some (0, 5, 2) := by decide
+
+
+/-- **C31, "upstream connection failures" — a stalled upstream (fixed code, `Deadline.armed`).** After any history of
+    pool steps and deadline expiries, a sender that is blocked in the write callback (its upstream neither reads nor resets,
+    so the write never completes by itself) has a write deadline armed: `stalledNext` is a move, not `none`. When the
+    deadline expires with `n` packets left, the callback returns, `pop` returns the error — sendLoop closes the connection and
+    reconnects — exactly one packet is given up, `n` packets are offered again by the next `pop`, the write buffer is
+    untouched and the error is counted. So a stalled upstream delays the packets behind it by at most `WriteTimeout`
+    (+ reconnect), not for ever. -/
+theorem stalled_write_released (v : Variant) (c : Cfg) (ops : List OpD) (i : Bool) (n : Nat)
+    (hw : (getB (runD .armed v c {} ops).p i).pc = .writing)
+    (hn : n < (batch (getB (runD .armed v c {} ops).p i)).length) :
+    let s := runD .armed v c {} ops
+    stalledNext s i ≠ none ∧ deadlineEnabled s i n = true ∧
+    (getB (stepD .armed v c s (.deadline i n)).1.p i).pc = .idle ∧
+    (stepD .armed v c s (.deadline i n)).2 = [.ret i true] ∧
+    (pendingOf (getB (stepD .armed v c s (.deadline i n)).1.p i)).length = n + (getB s.p i).w.length ∧
+    (getB (stepD .armed v c s (.deadline i n)).1.p i).nerr = (getB s.p i).nerr + 1 := by
+  have hdl : DlInv (runD .armed v c {} ops) := dlinv_runD v c ops {} (by intro j hj; cases j <;> simp [getB] at hj)
+  have hd := hdl i (by rw [hw]; simp)
+  have hen : deadlineEnabled (runD .armed v c {} ops) i n = true := by simp [deadlineEnabled, hd, hw, hn]
+  have hsk := write_error_skips_exactly_one c i (getB (runD .armed v c {} ops).p i) n hw hn
+  have hlt : ¬ ((batch (getB (runD .armed v c {} ops).p i)).length ≤ n) := by omega
+  refine ⟨by simp [stalledNext, hw, hd], hen, ?_, ?_, ?_, ?_⟩
+  · simp only [stepD, hen, if_true, step, onBuf, getB_setB_same]; exact hsk.2.1
+  · simp [stepD, hen, step, onBuf, writeDone, hw, hlt]
+  · simp only [stepD, hen, if_true, step, onBuf, getB_setB_same]; exact hsk.1
+  · simp only [stepD, hen, if_true, step, onBuf, getB_setB_same]; exact hsk.2.2.1
+
+/-- two packets accepted, the sender calls `pop` and is handed both; the upstream does not read -/
+def stalledWrite : List OpD := [.base (.handle [1]), .base (.handle [2]), .base (.pop false)]
+
+/-- pinned code (`Deadline.never`: the overflowing comparison never arms a deadline): the sender is inside the write
+    callback with two accepted packets, no deadline is armed, and no move is left — it stays in `WriteTo` -/
+example :
+    let s := runD .never .signal c10 {} stalledWrite
+    (getB s.p false).pc = .writing ∧ batch (getB s.p false) = [frame [1], frame [2]] ∧ getDl s false = false ∧
+    stalledNext s false = none ∧ (stepD .never .signal c10 s (.deadline false 1)).1 = s := by decide
+
+/-- fixed code, same history: the deadline expires, `pop` returns the error, one packet is given up and counted, the other
+    is handed to the next write (on the new connection) -/
+example :
+    let s := runD .armed .signal c10 {} stalledWrite
+    (getB s.p false).pc = .writing ∧ stalledNext s false = some (.deadline false 1) ∧
+    (let s' := runD .armed .signal c10 s [.deadline false 1, .base (.pop false)]
+     (getB s'.p false).nerr = 1 ∧ (getB s'.p false).pc = .writing ∧ batch (getB s'.p false) = [frame [2]] ∧
+     getDl s' false = true) := by decide
+
+
 /-
   Full statement of C31 and what is NOT proved here (kept as a comment; the check is labelled partial):
 
     "… within a bounded delay (about one second plus reconnection time) …"
   Proved: after the last push, at most one expiry of the batch timer and at most 6 forced moves of the sender hand every
-  buffered packet to a successful write (`prompt_even_if_idle_partial`), a failed write gives up exactly one packet and the rest is
-  offered again immediately (`write_error_skips_exactly_one`), and no wake-up is ever lost (`never_stuck`).
-  Not proved: the real-time length of a timer period (time.AfterFunc, 1 s) and of a write; sendLoop's reconnect loop
-  (ReconnectDelay, DialTimeout, write deadlines) — these are measured by the live tier of the harness with a 10 s budget;
-  "reported upstream" as a liveness statement (the report is sent by sendLoop after `pop` returns; `drops_counted_and_reported_partial`
-  proves the bytes are never lost from the books, the live tier checks the report arrives).
+  buffered packet to a successful write (`prompt_even_if_idle_partial`); a failed write gives up exactly one packet and the
+  rest is offered again immediately (`write_error_skips_exactly_one`, `callback_contract`); no wake-up is ever lost
+  (`never_stuck`); a write blocked by a stalled upstream is ended by the armed write deadline (`stalled_write_released`);
+  every pending dropped byte is reported exactly once within one scheduled loop iteration of the primary sender on a live
+  connection (`drops_counted_and_reported`); acceptance order is kept per sender across failovers and no packet is taken by
+  both senders (`pool_fifo_across_failover`, `failover_spec`).
+  Not proved: the real-time length of a timer period (time.AfterFunc 1 s, WriteTimeout) and of a write; sendLoop's
+  reconnect loop itself (ReconnectDelay, DialTimeout, address rotation) — measured by the live tier of the harness with
+  10x budgets; that the scheduler runs the sender (fairness is the hypothesis "the forced moves happen").
 -/
 
 end SH.C31
